@@ -20,17 +20,29 @@ def _classes():
     return numeric, math, other
 
 
+_PROBED = {}
+
+
+def _probe_numeric(obj):
+    """what a numeric codec does, observed rather than read from its class attributes: bytes consumed, float or integer, signedness"""
+    key = (type(obj).__name__, getattr(obj, 'STRUCT_TYPE', None))
+    if key not in _PROBED:
+        st = io.BytesIO(b'\xff' * 16)
+        v = obj.create_from_stream(st, 1)
+        n = st.tell()
+        if isinstance(v, float):
+            t = {'k': 'f32'} if n == 4 else {'k': 'f64'}
+        else:
+            t = {'k': 'int', 'size': n, 'signed': v < 0}
+        _PROBED[key] = t
+    return _PROBED[key]
+
+
 def ty_of_obj(obj):
     """Reflective translation of a live DataType object into the model's Ty JSON."""
     numeric, math, other = _classes()
     if isinstance(obj, numeric._NumericType):
-        fmt = obj.STRUCT_TYPE
-        if fmt == 'f':
-            return {'k': 'f32'}
-        if fmt == 'd':
-            return {'k': 'f64'}
-        size = {'b': 1, 'h': 2, 'i': 4, 'q': 8}[fmt.lower()]
-        return {'k': 'int', 'size': size, 'signed': fmt.islower()}
+        return dict(_probe_numeric(obj))
     if isinstance(obj, math._MathType):
         return {'k': 'vec', 'n': len(obj.STRUCT_TYPE)}
     if isinstance(obj, other.FixedDict):
